@@ -77,7 +77,7 @@ theorem parseConect_conectLine (L : Layout) (hC : ConectOK L) (a : Nat) (others 
     (ha : (natToDec (a + 1)).length ≤ L.conW) (hlen : others.length ≤ 4)
     (hfit : ∀ b ∈ others, (natToDec (b + 1)).length ≤ L.conW) :
     parseConect L (conectLine L a others) = .ok ((others.filter (a < ·)).map fun b => (a, b)) := by
-  obtain ⟨eS, eO⟩ := hC
+  obtain ⟨eS, eO, _⟩ := hC
   have hf : (rjust L.conW (natToDec (a + 1))).length = L.conW := length_rjust _ _ ha
   have hser : sl L.cSerial (conectLine L a others) = rjust L.conW (natToDec (a + 1)) := by
     rw [eS]; unfold conectLine
@@ -243,27 +243,60 @@ theorem items_ok (L : Layout) (natom : Nat) (bonds : List (Nat × Nat)) (hw : 0 
     have := hb p hp
     exact length_natToDec_le _ _ (by rcases e with e | e <;> omega) hw
 
-/-- C02 for PDB, whole files with CONECT records -/
+/-- C02 for PDB, whole files: multi-line TITLE / COMPND records, ATOM records, CONECT records -/
 theorem load_dump_bonds (T : Tables) (L : Layout) (hL : LayoutOK L) (hC : ConectOK L) (o : Obj) (h : DomB T L o) :
     load T L (dump T L o) = .ok (norm L o) := by
-  obtain ⟨ht, hne, hn, hw, hat, hcn, hcw, hb⟩ := h
-  have htt := okTitle_spec (okTitle_outTitle L hL o.title ht)
-  have h1 := step_title T L hL ⟨[], [], [], []⟩ (outTitle L o.title) htt.1
-  have hl := loop_atoms T L hL hw o.atoms ⟨[outTitle L o.title], [], [], []⟩ 0
-    (dumpConect L o.atoms.length o.bonds ++ [recEnd]) (by simpa using hn) hat
-  have hc := loop_conect T L hC (items o.atoms.length o.bonds) ⟨[outTitle L o.title], [], o.atoms, []⟩ [recEnd]
-    (items_ok L _ _ hcw hcn hb)
+  obtain ⟨ht, hcp, hne, hn, hw, hat, hcn, hcw, hb⟩ := h
+  have hkw : L.keyW = L.titleFrom := hC.2.2
+  have hk10 : L.keyW = 10 := by rw [hkw]; exact hL.2.2.2.1
+  have htt := okTitle_outTitle L hL o.title ht
+  have hT := loop_multiLines T L kTitle (by rw [hk10]; decide) hkw
+    (fun (s : St) t => { s with titles := s.titles ++ [t] }) (fun st filler t hs => step_titleX T L st filler t hs)
+    (outTitle L o.title) htt ⟨[], [], [], []⟩
   have hempty : o.atoms.isEmpty = false := by
     cases e : o.atoms with
     | nil => exact absurd e hne
     | cons _ _ => rfl
+  have htne : (splitNl (outTitle L o.title)).isEmpty = false := by
+    cases e : splitNl (outTitle L o.title) with
+    | nil => exact absurd e (splitNl_ne_nil _)
+    | cons _ _ => rfl
   unfold load dump
-  simp only [loop, h1, List.nil_append]
-  rw [hl]
-  simp only [List.nil_append, dumpConect_items]
-  rw [hc]
-  simp only [loop, step_end, List.nil_append, hempty, Bool.not_false, items_bonds]
-  simp [norm, joinNl]
+  rw [hT, foldl_titles]
+  simp only [List.nil_append]
+  cases hcomp : o.compound with
+  | none =>
+    have hl := loop_atoms T L hL hw o.atoms ⟨splitNl (outTitle L o.title), [], [], []⟩ 0
+      (dumpConect L o.atoms.length o.bonds ++ [recEnd]) (by simpa using hn) hat
+    have hc := loop_conect T L hC (items o.atoms.length o.bonds) ⟨splitNl (outTitle L o.title), [], o.atoms, []⟩ [recEnd]
+      (items_ok L _ _ hcw hcn hb)
+    simp only [List.nil_append]
+    rw [hl]
+    simp only [List.nil_append, dumpConect_items]
+    rw [hc]
+    simp only [loop, step_end, List.nil_append, hempty, Bool.not_false, items_bonds, htne, joinNl_splitNl]
+    simp [norm, hcomp]
+  | some c =>
+    rw [hcomp] at hcp
+    have hCm := loop_multiLines T L kCompnd (by rw [hk10]; decide) hkw
+      (fun (s : St) t => { s with compnds := s.compnds ++ [t] }) (fun st filler t hs => step_compndX T L st filler t hs)
+      c hcp ⟨splitNl (outTitle L o.title), [], [], []⟩
+    have hcne : (splitNl c).isEmpty = false := by
+      cases e : splitNl c with
+      | nil => exact absurd e (splitNl_ne_nil _)
+      | cons _ _ => rfl
+    have hl := loop_atoms T L hL hw o.atoms ⟨splitNl (outTitle L o.title), splitNl c, [], []⟩ 0
+      (dumpConect L o.atoms.length o.bonds ++ [recEnd]) (by simpa using hn) hat
+    have hc := loop_conect T L hC (items o.atoms.length o.bonds) ⟨splitNl (outTitle L o.title), splitNl c, o.atoms, []⟩ [recEnd]
+      (items_ok L _ _ hcw hcn hb)
+    simp only []
+    rw [hCm, foldl_compnds]
+    simp only [List.nil_append]
+    rw [hl]
+    simp only [List.nil_append, dumpConect_items]
+    rw [hc]
+    simp only [loop, step_end, List.nil_append, hempty, Bool.not_false, items_bonds, htne, hcne, joinNl_splitNl]
+    simp [norm, hcomp]
 
 /-! ### C15: the de-duplicated bond list is a fixed point -/
 
@@ -357,7 +390,7 @@ theorem norm_idem_bonds (L : Layout) (hL : LayoutOK L) (o : Obj) : norm L (norm 
   simp [norm, Loaded.obj, outTitle_idem L hL, normBonds_idem]
 
 theorem domB_norm (T : Tables) (L : Layout) (hL : LayoutOK L) (o : Obj) (h : DomB T L o) : DomB T L (norm L o).obj := by
-  obtain ⟨ht, hne, hn, hw, hat, hcn, hcw, hb⟩ := h
-  exact ⟨okTitle_outTitle L hL o.title ht, hne, hn, hw, hat, hcn, hcw, normBonds_lt _ _ hb⟩
+  obtain ⟨ht, hcp, hne, hn, hw, hat, hcn, hcw, hb⟩ := h
+  exact ⟨okTitle_outTitle L hL o.title ht, hcp, hne, hn, hw, hat, hcn, hcw, normBonds_lt _ _ hb⟩
 
 end Iodata.Fmt.Pdb
